@@ -75,8 +75,16 @@ def install(mon: Monitor) -> None:
 
 
 # --------------------------------------------------------------------------- history checker
-def judge_history(mon: Monitor, w: RecWriter, stream, hdr, ftr, seen_obs, result, exc, cfg, cls: str, sig) -> bool:
+def judge_history(mon: Monitor, w: RecWriter, stream, hdr, ftr, seen_obs, result, exc, cfg, cls: str, sig, given=None) -> bool:
     wit = lambda extra=None: {**cfg, **(extra or {})}
+    if given is not None:
+        # the chunks belong to the caller: whatever the library assembles, it must not grow or rewrite them (a reused buffer would then repeat foreign bytes later in the stream)
+        mon.obs["caller_buffers_compared"] += len(given)
+        bad = [i for (d, i), (snap, _) in zip(given, stream) if bytes(d) != snap]
+        if bad:
+            return mon.fail("history", wit({"why": "the library modified chunks owned by the caller", "chunk_ids": bad[:10], "sizes_now": [len(d) for d, _ in given][:12], "sizes_given": [len(sn) for sn, _ in stream][:12]}),
+                            key="caller-chunk-mutated", cls=cls)
+        mon.ok("caller-buffers", cls=cfg.get("kind", "bytes"))
     if exc is not None:
         tb = traceback.extract_tb(exc.__traceback__)
         where = next((f"{f.name}:{f.lineno}" for f in reversed(tb) if "odc/geo" in f.filename), "?")
@@ -150,7 +158,9 @@ def make_config(rng: random.Random, max_parts: int):
     min_part = rng.choice([1, 1, 5])
     total_parts = sum(len(b) for b in spec)
     max_part = rng.choice([10_000, min_part + total_parts * wpc])
-    return dict(m=m, wpc=wpc, spill=spill, hdr=hdr, ftr=ftr, spec=spec, min_part=min_part, max_part=max_part)
+    # what the caller hands over: immutable bytes, one fresh bytearray per chunk, or ONE bytearray per size reused for every chunk of that size (a cached blank-tile payload)
+    kind = rng.choice(["bytes", "bytes", "bytes", "bytearray", "shared-bytearray"])
+    return dict(m=m, wpc=wpc, spill=spill, hdr=hdr, ftr=ftr, spec=spec, min_part=min_part, max_part=max_part, kind=kind)
 
 
 def chunk_bytes(i: int, sz: int) -> bytes:
@@ -158,18 +168,27 @@ def chunk_bytes(i: int, sz: int) -> bytes:
 
 
 def build_stream(cfg):
+    """bags: what is handed to the library (objects of the configured kind); stream: (immutable snapshot, id) in stream order - the oracle never looks at the caller's buffers again,
+    except to confirm that the library left them alone."""
     cid = itertools.count()
     bags = []
     stream = []
+    kind = cfg.get("kind", "bytes")
+    shared = {}
     for bag in cfg["spec"]:
         parts = []
         for p in bag:
             chunks = []
             for sz in p:
                 i = next(cid)
-                d = chunk_bytes(i, sz)
+                if kind == "shared-bytearray":
+                    d = shared.setdefault(sz, bytearray(chunk_bytes(sz, sz)))
+                    snap = bytes(d)
+                else:
+                    snap = chunk_bytes(i, sz)
+                    d = bytearray(snap) if kind == "bytearray" else snap
                 chunks.append((d, i))
-                stream.append((d, i))
+                stream.append((snap, i))
             parts.append(chunks)
         bags.append(parts)
     hdr = None if cfg["hdr"] is None else b"H" * cfg["hdr"]
@@ -212,7 +231,8 @@ def run_direct(mon: Monitor, cfg, trees, cls: str) -> None:
         return _finalizer_dask_op(root, write=w, mk_header=mk("header", hdr), mk_footer=mk("footer", ftr))
 
     res, exc = call(go)
-    judge_history(mon, w, stream, hdr, ftr, seen, res, exc, {**cfg, "trees": repr(trees)[:200]}, cls, hsig("d", repr(cfg), repr(trees)))
+    judge_history(mon, w, stream, hdr, ftr, seen, res, exc, {**cfg, "trees": repr(trees)[:200]}, cls, hsig("d", repr(cfg), repr(trees)), given=[c for parts in bags for ch in parts for c in ch])
+    mon.obs["histories|" + cfg.get("kind", "bytes")] += 1
 
 
 def drive_direct(mon: Monitor, rng: random.Random, n_cfg: int, max_enum: int) -> None:
@@ -274,7 +294,9 @@ def run_dask(mon: Monitor, cfg, scheduler: str, seed: int, workers: int = 4, lab
         return out
 
     res, exc = call(go)
-    ok = judge_history(mon, w, stream, hdr, ftr, seen, res, exc, {**cfg, "scheduler": scheduler, "seed": seed, "workers": workers}, label or f"dask|{scheduler}", hsig("k", repr(cfg), scheduler, order_sig))
+    ok = judge_history(mon, w, stream, hdr, ftr, seen, res, exc, {**cfg, "scheduler": scheduler, "seed": seed, "workers": workers}, label or f"dask|{scheduler}", hsig("k", repr(cfg), scheduler, order_sig),
+                       given=[c for parts in bags for ch in parts for c in ch])
+    mon.obs["histories|" + cfg.get("kind", "bytes")] += 1
     if order_sig is not None:
         _orders.add((scheduler, order_sig))
 
@@ -313,6 +335,10 @@ PINNED = [
     dict(m=64, wpc=2, spill=1, hdr=None, ftr=None, spec=[[[65, 1, 1, 200], [3, 1]]], min_part=1, max_part=10_000),
     dict(m=8, wpc=1, spill=0, hdr=8, ftr=None, spec=[[[9], [17]]], min_part=5, max_part=10_000),
     dict(m=8, wpc=1, spill=8, hdr=None, ftr=8, spec=[[[0], [0]]], min_part=1, max_part=3),
+    # caller-owned mutable chunks, one buffer reused for every chunk of a size (seeded change C06-7: adopting the caller's bytearray as the cache)
+    dict(m=8, wpc=1, spill=16, hdr=8, ftr=1, spec=[[[9, 3], [9, 9], [3, 9]]], min_part=1, max_part=10_000, kind="shared-bytearray"),
+    dict(m=64, wpc=2, spill=10**9, hdr=None, ftr=None, spec=[[[65, 1], [65]], [[1, 65]]], min_part=1, max_part=10_000, kind="shared-bytearray"),
+    dict(m=8, wpc=1, spill=0, hdr=None, ftr=None, spec=[[[7, 7], [7]]], min_part=1, max_part=10_000, kind="bytearray"),
 ]
 
 
@@ -326,13 +352,18 @@ def run(mon: Monitor, tier: str, seed: int, shard: int, nshards: int) -> None:
             for trees in itertools.product(*[all_trees(len(b)) for b in cfg["spec"]]):
                 mon.case = {"kind": "direct", "cfg": cfg, "trees": repr(trees)}
                 run_direct(mon, cfg, trees, "direct|pinned")
+            if cfg.get("kind", "bytes") != "bytes":
+                for sd in (1, 2):
+                    mon.case = {"kind": "dask", "cfg": cfg, "scheduler": "sync", "seed": sd}
+                    run_dask(mon, cfg, "sync", sd, label="dask|sync|pinned")
         drive_direct(mon, rng, 260 if q else 3000, 4 if q else 5)
         drive_random_trees(mon, rng, 1500 if q else 30000)
         drive_dask(mon, rng, 90 if q else 400)
         mon.exhaustive = True
         mon.notes["exhaustive_domain"] = f"all binary merge trees over adjacent partitions for every generated configuration with <= {4 if q else 5} partitions per sub-stream"
         for pt, n in [("history", 2000), ("history|direct|enumerated", 800), ("history|direct|random-tree", 800), ("history|dask|sync", 30), ("history|dask|threads", 15), ("history|dask|sync|many-partitions", 2), ("history|direct|pinned", 4),
-                      ("MPUChunk.invariant", 5000), ("MPUChunk.invariant|merge", 500), ("MPUChunk.invariant|maybe_write", 500), ("MPUChunk.invariant|flush_rhs", 100)]:
+                      ("MPUChunk.invariant", 5000), ("MPUChunk.invariant|merge", 500), ("MPUChunk.invariant|maybe_write", 500), ("MPUChunk.invariant|flush_rhs", 100),
+                      ("caller-buffers|bytes", 800), ("caller-buffers|bytearray", 150), ("caller-buffers|shared-bytearray", 150)]:
             mon.floor(pt, n)
     finally:
         detach_all()
